@@ -218,27 +218,37 @@ pub fn run_timer(ctx: &Ctx) -> i32 {
     let mut ev = Evidence::new(ctx, "exploration", RULE_TIMER);
     ev.assumptions = vec!["real time; tolerance of one tick (a clock wrong by less than a second is not detectable this way)".into()];
     let results: Vec<(Vec<(f64, u64)>, &'static str)> = std::thread::scope(|s| {
-        let hs: Vec<_> = ["current-thread", "multi-thread"]
+        // the third configuration injects a fault: the only runtime thread is held for 4.4 s (a long-running
+        // command, a descheduled process); the tick counter is a clock, so it has to catch up with real time
+        let hs: Vec<_> = ["current-thread", "multi-thread", "current-thread+stall"]
             .into_iter()
             .map(|fl| {
                 s.spawn(move || {
+                    let stall = fl.ends_with("+stall");
+                    let run_ms: u64 = if stall { 8400 } else { 4600 };
                     let timer = Arc::new(SystemTimer::new());
                     let t2 = timer.clone();
                     let (tx, rx) = std::sync::mpsc::channel::<()>();
                     let th = std::thread::spawn(move || {
-                        let rt = if fl == "current-thread" {
+                        let rt = if fl.starts_with("current-thread") {
                             tokio::runtime::Builder::new_current_thread().enable_all().build().unwrap()
                         } else {
                             tokio::runtime::Builder::new_multi_thread().worker_threads(2).enable_all().build().unwrap()
                         };
                         rt.block_on(async move {
-                            let _ = tokio::time::timeout(Duration::from_millis(4600), t2.run()).await;
+                            if stall {
+                                tokio::spawn(async {
+                                    tokio::time::sleep(Duration::from_millis(1200)).await;
+                                    std::thread::sleep(Duration::from_millis(4400));
+                                });
+                            }
+                            let _ = tokio::time::timeout(Duration::from_millis(run_ms), t2.run()).await;
                         });
                         let _ = tx.send(());
                     });
                     let t0 = Instant::now();
                     let mut samples = vec![];
-                    while t0.elapsed() < Duration::from_millis(4300) {
+                    while t0.elapsed() < Duration::from_millis(run_ms - 300) {
                         samples.push((t0.elapsed().as_secs_f64(), timer.timestamp()));
                         std::thread::sleep(Duration::from_millis(50));
                     }
@@ -257,10 +267,13 @@ pub fn run_timer(ctx: &Ctx) -> i32 {
             // the first tick fires at start-up, so k runs one ahead of the elapsed whole seconds; the sampling
             // thread starts a little after the timer, hence the tolerance of one tick either side
             let fl_t = t.floor() as i64;
-            let bad_range = (*k as i64) < fl_t - 1 || (*k as i64) > fl_t + 2;
+            // while the runtime thread is held (1.2 s .. 5.6 s, plus slack to catch up) the counter may lag; it
+            // may never run ahead, and afterwards it must be back within a tick of real time
+            let stalled_window = fl.ends_with("+stall") && *t >= 1.0 && *t <= 6.3;
+            let bad_range = if stalled_window { (*k as i64) > fl_t + 2 } else { (*k as i64) < fl_t - 1 || (*k as i64) > fl_t + 2 };
             let mut bad_step = false;
             if let Some((pt, pk)) = prev {
-                if *k < pk || (*k - pk) as f64 > (t - pt).floor() + 1.0 {
+                if *k < pk || (!fl.ends_with("+stall") && (*k - pk) as f64 > (t - pt).floor() + 1.0) {
                     bad_step = true;
                 }
                 if *k != pk {
